@@ -19,6 +19,12 @@ from .pysrc import FUNC, stable
 
 _REV = None
 SMALL_ABS = 6        # statements inserted + deleted
+SMALL_MID = 10
+
+
+def small(ch, n):
+    """Few statements changed: at most SMALL_ABS, or up to SMALL_MID when that is at most half of the function."""
+    return ch <= SMALL_ABS or (ch <= SMALL_MID and 2 * ch <= n)
 
 
 def statements(func):
@@ -101,7 +107,7 @@ def small_edit(mod, line):
     if d is None:
         return False, f"{q} is not a function of the reviewed tree"
     ch, n = d
-    ok = ch <= SMALL_ABS
+    ok = small(ch, n)
     return ok, f"{q}: {ch} of {n} reviewed statements changed"
 
 
@@ -112,7 +118,7 @@ def file_small_edit(mod):
         d = distance(mod.rel, q, f)
         if d is None:
             return False, f"{q} is not a function of the reviewed tree"
-        if d[0] > SMALL_ABS:
+        if not small(d[0], d[1]):
             return False, f"{q}: {d[0]} of {d[1]} reviewed statements changed"
     for q in rev:
         if q not in mod.funcs:
